@@ -27,7 +27,8 @@ func (m *Mutex) TryLock() bool {
 
 // Unlock releases the mutex. It only enables other threads, so it is not a scheduling point.
 func (m *Mutex) Unlock() {
-	Bump()
+	// no epoch bump: releasing a lock changes nothing a spin loop polls for (waiters are woken through
+	// their predicates); bumping here would hide lock-protected spin loops from the spin detector.
 	if !m.locked {
 		panic("sync: unlock of unlocked mutex")
 	}
@@ -49,7 +50,6 @@ func (m *RWMutex) RLock() {
 
 // RUnlock releases a read lock.
 func (m *RWMutex) RUnlock() {
-	Bump()
 	if m.readers <= 0 {
 		panic("sync: RUnlock of unlocked RWMutex")
 	}
@@ -81,7 +81,6 @@ func (m *RWMutex) Lock() {
 
 // Unlock releases the write lock.
 func (m *RWMutex) Unlock() {
-	Bump()
 	if !m.writer {
 		panic("sync: Unlock of unlocked RWMutex")
 	}
